@@ -21,6 +21,7 @@ type C16Replay struct {
 	// executed between the reference run and the compared run: the "history" a second client
 	// of the library would create (a wrongly keyed cache shows only then).
 	Decoy *Call `json:"intervening_call,omitempty"`
+	Alias bool  `json:"same_slice_for_equal_lists,omitempty"`
 	// History: the runs of the same case that were executed (in this order, after the
 	// reference run) before the compared run. State the library keeps between calls makes
 	// a result depend on them; the shrinker removes the ones that do not matter.
@@ -142,7 +143,13 @@ func execRun(spec *OpSpec, call *Call, order *simrt.OrderSource) runOutcome {
 }
 
 func execRunBudget(spec *OpSpec, call *Call, order *simrt.OrderSource, budget int64) runOutcome {
-	m := NewMaterializer(false)
+	return execRunFull(spec, call, order, budget, false)
+}
+
+// execRunFull: with alias set, list arguments of identical content are one and the same
+// slice (same backing array) - "the same list passed twice".
+func execRunFull(spec *OpSpec, call *Call, order *simrt.OrderSource, budget int64, alias bool) runOutcome {
+	m := NewMaterializer(alias)
 	args := m.Build(call)
 	before := argHashes(args)
 	lens := [2]int{len(args.IDs), len(args.IDs2)}
@@ -280,7 +287,7 @@ func evalC16(rp *C16Replay) (clauses map[string]string, ref, run runOutcome) {
 	}
 	execDecoy(rp.Decoy)
 	pc := applyIdx(rp.Base, rp.ListIdx)
-	run = execRun(spec, pc, simrt.NewReplayOrder(rp.Decisions))
+	run = execRunFull(spec, pc, simrt.NewReplayOrder(rp.Decisions), stepBudgetPerRun, rp.Alias)
 	checkPair(spec, rp.Pert, &ref, &run, clauses)
 	return
 }
@@ -312,7 +319,7 @@ func checkPair(spec *OpSpec, pert string, ref, run *runOutcome, clauses map[stri
 }
 
 func (w *Worker) runC16Case(idx int64) {
-	g := &Gen{R: simrt.NewRand(simrt.Mix(w.Seed, uint64(idx), 16))}
+	g := &Gen{R: simrt.NewRand(simrt.Mix(w.Seed, uint64(idx), 16)), Deep: w.Tier == "thorough"}
 	// operation choice
 	tot := 0
 	var ops []*OpSpec
@@ -375,7 +382,11 @@ func (w *Worker) runC16Case(idx int64) {
 		}
 		pc := applyIdx(base, lidx)
 		order := simrt.NewGenOrder(simrt.Mix(w.Seed, uint64(idx), uint64(k), 1600), weights)
-		run := execRun(spec, pc, order)
+		alias := len(pc.IDs) > 0 && equalStrings(pc.IDs, pc.IDs2) && g.R.Chance(1, 2)
+		run := execRunFull(spec, pc, order, stepBudgetPerRun, alias)
+		if alias {
+			w.St.FaultKinds["same_slice_passed_as_both_list_arguments"]++
+		}
 		w.St.Evaluations++
 		w.mergeOrderStats(order)
 		if run.aborted {
@@ -405,7 +416,7 @@ func (w *Worker) runC16Case(idx int64) {
 				w.report(&Violation{Property: "C16", Op: spec.Name, Clause: cl})
 				continue
 			}
-			rp := &C16Replay{Base: base, Pert: pert, ListIdx: lidx, Decisions: order.Decisions, Clause: cl, Decoy: decoy, History: append([]C16Step{}, history...)}
+			rp := &C16Replay{Base: base, Pert: pert, ListIdx: lidx, Decisions: order.Decisions, Clause: cl, Decoy: decoy, Alias: alias, History: append([]C16Step{}, history...)}
 			rp, note := shrinkC16(rp)
 			v := &Violation{Property: "C16", Clause: cl, Op: spec.Name, Seed: w.Seed, Case: idx, Detail: clauses[cl],
 				Sites: w.siteNames(rp.Decisions), Replay: mustJSON(rp), Shrunk: note}
